@@ -1,1 +1,3 @@
 pub mod eval;
+pub mod interp;
+pub mod ir;
